@@ -184,6 +184,8 @@ func init() {
 		for sc := 0; sc < 12; sc++ {
 			runTwoCalculators(c, sc)
 		}
+		propDefaultTableEdits(c) // a used calculator whose function table is edited = a new calculator with that table
+		propTplMaps(c)           // a used template whose variables are edited in place = a new template with those variables
 		exprPool := []string{"a << 1", "a <= 1", "a <> 1", "a >> 1", "a >= b", "a != b", "a + b * 2", "(a", "a +", "1 2", "'unterminated", "/* open", "x", "Max(a, b)", "a[0]", "NOT a", "", "a IS NULL", "\"a\" + 1", "a NOT IN b"}
 		tplPool := []string{"{{a}}", "{{{name}}}", "x{{#a}}y{{/a}}z", "{{#if B}}q{{/if}}", "{{^B}}w{{/B}}", "{{a", "{{#a}}x", "text", "", "{{! c }}ok", "{{ 'unterminated", "}}{{a}}", "{{ 😀 }}", "{{a}} {{B}}"}
 		for _, a := range exprPool {
@@ -262,6 +264,10 @@ func init() {
 			runParserHistory(c, xs)
 		case "thist":
 			runTemplateHistory(c, xs)
+		case "deftable":
+			propDefaultTableEdits(c)
+		case "tplmap":
+			propTplMaps(c)
 		case "twocalc":
 			var sc int
 			fmt.Sscanf(f[1], "%d", &sc)
